@@ -270,6 +270,15 @@ func startGatewayHealthCheck(e *EndpointInfo, interval time.Duration, ctx contex
 		for {
 			select {
 			case <-e.healthCheckCh:
+				// select picks at random among ready cases, so a trigger that is
+				// still queued when the probe context is cancelled (endpoint disabled
+				// or removed) could start one more probe: re-check before probing
+				if ctx.Err() != nil {
+					return
+				}
+				if e.IstDisabled() {
+					continue
+				}
 				e.healthCheckFun(e)
 			case <-ctx.Done():
 				return
